@@ -284,6 +284,66 @@ pub fn case(ctx: &mut Ctx, idx: u64) {
         ctx.count("class:mode-builder-lacks-setter");
     }
 
+    // ---- B1 across a mode switch: the builder starts on the *unconverted* osu! map, is switched to the target mode, and the
+    // setters are applied partly before and partly after the switch - against the same builder handed the whole Difficulty
+    // after the switch. (Mania converts depend on the mods at the moment of the switch: only programs without a mods setter.
+    // `hardrock_offsets` is documented as a no-op on a non-catch builder: those setters always go after the switch, their
+    // relative order kept.)
+    if map.mode == GameMode::Osu && mode != GameMode::Osu && (mode != GameMode::Mania || !prog.iter().any(|s| matches!(s, Setter::Mods(_)))) {
+        let reference2 = guard(|| dump(&api::perf_calc(sc.apply(Performance::new(&map).mode_or_ignore(mode).difficulty(d.clone())))));
+        if let Ok(reference2) = reference2 {
+            let split = |k: usize| -> (Vec<&Setter>, Vec<&Setter>) {
+                let mut before = Vec::new();
+                let mut after = Vec::new();
+                for (j, s) in prog.iter().enumerate() {
+                    if j < k && !matches!(s, Setter::Hro(_)) {
+                        before.push(s);
+                    } else {
+                        after.push(s);
+                    }
+                }
+                // every setter on a field that also appears later must not overtake it: a setter moved behind the switch stays
+                // behind all earlier ones, one kept before stays before all later ones - only `Hro` (independent field) moves
+                (before, after)
+            };
+            let k = rng.usize_below(prog.len() + 1);
+            let mut variants2: Vec<(String, Result<String, crate::runner::PanicInfo>)> = Vec::new();
+            for (label, kk, owned) in [("switch.setters", 0usize, false), ("setters.switch.setters", k, false), ("setters.switch.setters(owned)", k, true), ("setters.switch", prog.len(), false)] {
+                let (before, after) = split(kk);
+                let r = guard(|| {
+                    let p0 = if owned { Performance::new(map.clone()) } else { Performance::new(&map) };
+                    let p = before.iter().fold(p0, |p, s| s.on_performance(p, mode));
+                    let p = if kk % 2 == 0 {
+                        p.mode_or_ignore(mode)
+                    } else {
+                        match p.try_mode(mode) {
+                            Ok(p) | Err(p) => p,
+                        }
+                    };
+                    let p = after.iter().fold(p, |p, s| s.on_performance(p, mode));
+                    dump(&api::perf_calc(sc.apply(p)))
+                });
+                variants2.push((format!("Performance(&osu_map).{label}"), r));
+            }
+            ctx.count("B1_across_switch");
+            for (name, r) in variants2 {
+                ctx.eval();
+                match r {
+                    Ok(v) => {
+                        if v != reference2 {
+                            ctx.violation(
+                                &format!("C18/B1-switch/{mname}/{name}"),
+                                &format!("{name} differs from Performance(&osu_map).switch.difficulty(Difficulty::new().setters) | split at {k} | {ctxs}\n setters   : {}\n difficulty: {}", truncate(&v, 1500), truncate(&reference2, 1500)),
+                                Some(text),
+                            );
+                        }
+                    }
+                    Err(p) => ctx.violation(&format!("C18/B1-switch/{mname}/{name}/{}", p.sig()), &format!("{} at {} | {ctxs}", p.msg, p.loc), Some(text)),
+                }
+            }
+        }
+    }
+
     // ---- permutation of setters on distinct fields; repeated setters: last wins
     {
         let mut last: Vec<Setter> = Vec::new();
